@@ -45,11 +45,40 @@ pub fn run_socket_stream(srv: &Server, stream: &[u8], cuts: &[usize], expect_clo
     run_socket_stream_owed(srv, stream, cuts, expect_close, None)
 }
 
+/// like `run_socket_stream_owed`, with the debt expressed as the opaques of the loud requests wholly
+/// contained in the first n stream bytes (each must have been answered when the server is idle)
+pub fn run_socket_stream_opaques(srv: &Server, stream: &[u8], cuts: &[usize], owed: &dyn Fn(usize) -> Vec<u32>) -> Result<SockOut, String> {
+    run_socket_stream_owed_impl(srv, stream, cuts, false, None, Some(owed))
+}
+
 /// `owed(n)` = response bytes the requests wholly contained in the first n stream bytes produce (known
 /// from an unsplit run of the same stream). At every chunk boundary the server is waited for until it is
 /// idle in read; if it then still owes responses and they do not arrive within a second, a completely
 /// sent request is being sat on.
 pub fn run_socket_stream_owed(srv: &Server, stream: &[u8], cuts: &[usize], expect_close: bool, owed: Option<&dyn Fn(usize) -> usize>) -> Result<SockOut, String> {
+    run_socket_stream_owed_impl(srv, stream, cuts, expect_close, owed, None)
+}
+
+fn run_socket_stream_owed_impl(
+    srv: &Server,
+    stream: &[u8],
+    cuts: &[usize],
+    expect_close: bool,
+    owed: Option<&dyn Fn(usize) -> usize>,
+    owed_opq: Option<&dyn Fn(usize) -> Vec<u32>>,
+) -> Result<SockOut, String> {
+    // both kinds of debt are reduced to (have, want): bytes, or number of owed opaques answered
+    let debt = |rx: &[u8], n: usize| -> Option<(usize, usize)> {
+        if let Some(f) = owed {
+            return Some((rx.len(), f(n)));
+        }
+        if let Some(f) = owed_opq {
+            let want = f(n);
+            let got: std::collections::HashSet<u32> = parse_prefix(rx).iter().map(|r| r.opaque).collect();
+            return Some((want.iter().filter(|o| got.contains(o)).count(), want.len()));
+        }
+        None
+    };
     let mut stalled: Option<(usize, usize, usize)> = None;
     let mut c = Cli::connect(srv.port)?;
     let t_start = Instant::now();
@@ -77,15 +106,15 @@ pub fn run_socket_stream_owed(srv: &Server, stream: &[u8], cuts: &[usize], expec
             // the server is done with this connection: the rest cannot be delivered meaningfully
             break;
         }
-        if let (Some(f), None) = (owed, stalled) {
-            let want = f(b);
+        if let (Some((_, want)), None) = (debt(&c.rx, b), stalled) {
+            let have = |c: &Cli| debt(&c.rx, b).map(|x| x.0).unwrap_or(0);
             // only an idle server (blocked in the frame loop's read with everything sent so far taken out
             // of the socket) that still owes responses a second later is sitting on a request; a server
             // that is busy (e.g. discarding an oversized body) is simply not asked
             let t0 = Instant::now();
             let sent = c.sent;
             let mut idle_since: Option<Instant> = None;
-            while c.rx.len() < want && c.end == End::Open && t0.elapsed() < Duration::from_millis(1500) {
+            while have(&c) < want && c.end == End::Open && t0.elapsed() < Duration::from_millis(1500) {
                 c.drain();
                 let o = conn_log().get(c.port);
                 if o.exited {
@@ -95,8 +124,8 @@ pub fn run_socket_stream_owed(srv: &Server, stream: &[u8], cuts: &[usize], expec
                     let since = *idle_since.get_or_insert_with(Instant::now);
                     if since.elapsed() > Duration::from_secs(1) {
                         c.drain();
-                        if c.rx.len() < want {
-                            stalled = Some((b, c.rx.len(), want));
+                        if have(&c) < want {
+                            stalled = Some((b, have(&c), want));
                         }
                         break;
                     }
@@ -320,7 +349,18 @@ pub fn run_c12(ctx: &Ctx) -> i32 {
                     }
                     evals += 1;
                     let describe = |extra: serde_json::Value| json!({"engine":"pipe","case":c,"worker":w,"requests":frames.iter().map(|f| format!("{}#{}", op::name(f.opcode), f.opaque)).collect::<Vec<_>>(),"cuts":cuts,"stream_hex":wire::hex(&stream[..stream.len().min(3000)]),"detail":extra,"replay_cmd":format!("/verif/check C12 replay --case {}", c)});
-                    let out = match run_socket_stream(&srv, &stream, &cuts, quit_pos.is_some()) {
+                    // debt at a chunk boundary: every loud request that was completely sent (and is not behind a
+                    // quit) must have been answered by the time the server is idle again
+                    let ends: Vec<usize> = offs.iter().skip(1).copied().chain(std::iter::once(stream.len())).collect();
+                    let owed = |n: usize| -> Vec<u32> {
+                        frames
+                            .iter()
+                            .enumerate()
+                            .filter(|(i, f)| ends[*i] <= n && !op::is_quiet(f.opcode) && quit_pos.map(|q| *i <= q).unwrap_or(true))
+                            .map(|(_, f)| f.opaque)
+                            .collect()
+                    };
+                    let out = match run_socket_stream_opaques(&srv, &stream, &cuts, &owed) {
                         Ok(o) => o,
                         Err(e) => {
                             *local.entry("inconclusive:connect".into()).or_insert(0) += 1;
@@ -328,6 +368,13 @@ pub fn run_c12(ctx: &Ctx) -> i32 {
                             continue;
                         }
                     };
+                    if let Some((sent, got, want)) = out.stalled {
+                        shared.lock().unwrap().violation(
+                            Viol::new(&["C12", "C10", "C09"], "complete-request-unanswered", format!("after {} stream bytes the server is idle in read but only {} of the {} loud requests sent completely so far have been answered", sent, got, want)),
+                            describe(json!({"end": format!("{:?}", out.end)})),
+                        );
+                        continue;
+                    }
                     *local.entry(format!("segmentation:{}", ["one", "two", "per-request", "random"][seg])).or_insert(0) += 1;
                     *local.entry("unconfirmed_chunk_boundaries".into()).or_insert(0) += out.unconfirmed;
                     let mut viols: Vec<Viol> = vec![];
@@ -487,7 +534,77 @@ pub fn run_c12(ctx: &Ctx) -> i32 {
             });
         }
     });
+    // quit / quitq followed by more requests on a connection that is reset while the quit is pending
+    quit_reset_scenarios(ctx, &shared);
     shared.into_inner().unwrap().finish()
+}
+
+/// "Nothing received after quit/quitq is executed" must also hold when the peer has already reset the
+/// connection by the time the server reaches the quit (closing the socket then fails). The window is
+/// produced with an injected delay: the connection task sleeps when it is handed the quit frame, the
+/// client resets meanwhile.
+fn quit_reset_scenarios(ctx: &Ctx, shared: &Mutex<Evidence>) {
+    let n = ctx.n(24, 200);
+    let mut local: BTreeMap<String, u64> = BTreeMap::new();
+    for i in 0..n {
+        let quiet = i % 2 == 0;
+        let rst = i % 4 != 3;
+        let srv = match Server::start(SrvCfg { workers: if i % 3 == 0 { Some(2) } else { None }, ..Default::default() }) {
+            Ok(s) => s,
+            Err(_) => continue,
+        };
+        let mut c = match Cli::connect(srv.port) {
+            Ok(c) => c,
+            Err(_) => continue,
+        };
+        let qop = if quiet { op::QUITQ } else { op::QUIT };
+        crate::sock::inject_delay(c.port, qop, 150);
+        let before = format!("qr-before-{}", i).into_bytes();
+        let after: Vec<Vec<u8>> = (0..3).map(|k| format!("qr-after-{}-{}", i, k).into_bytes()).collect();
+        let mut stream = vec![];
+        wire::store(op::SET, &before, b"1", 0, 0, 1, 0).encode_into(&mut stream);
+        wire::simple(qop, 2).encode_into(&mut stream);
+        for (k, a) in after.iter().enumerate() {
+            wire::store(if k == 1 { op::SETQ } else { op::SET }, a, b"must-not-run", 0, 0, 10 + k as u32, 0).encode_into(&mut stream);
+        }
+        use std::io::Write;
+        let _ = c.s.write_all(&stream);
+        let key = c.port;
+        // the server is now asleep holding the quit frame
+        conn_log().wait(key, Duration::from_secs(2), |o| o.frames.iter().any(|f| f.0 == qop));
+        if rst {
+            c.reset();
+        } else {
+            drop(c);
+        }
+        conn_log().wait(key, Duration::from_secs(3), |o| o.exited);
+        crate::sock::clear_delays(key);
+        *local.entry(format!("quit_reset:{}:{}", if quiet { "quitq" } else { "quit" }, if rst { "rst" } else { "fin" })).or_insert(0) += 1;
+        let mut e = shared.lock().unwrap();
+        e.evaluations += 1;
+        e.nontrivial.insert(fnv(format!("quit-reset:{}:{}:{}", quiet, rst, i % 3).as_bytes()));
+        drop(e);
+        if let Ok(mut obs) = Cli::connect(srv.port) {
+            let b = ask(&mut obs, &wire::get(op::GET, &before, 1));
+            let mut executed = vec![];
+            for a in &after {
+                if ask(&mut obs, &wire::get(op::GET, a, 2)).map(|r| r.status == st::OK).unwrap_or(false) {
+                    executed.push(String::from_utf8_lossy(a).to_string());
+                }
+            }
+            let mut e = shared.lock().unwrap();
+            if b.map(|r| r.status != st::OK).unwrap_or(true) {
+                e.violation(Viol::new(&["C12", "C18"], "request-before-quit-lost", format!("the set in front of the {} was not executed", op::name(qop))), json!({"engine":"pipe-quit-reset","scenario":i}));
+            }
+            if !executed.is_empty() {
+                e.violation(
+                    Viol::new(&["C12", "C18"], "executed-after-quit", format!("requests placed after a {} were executed after the client {} the connection while the quit was pending: {:?}", op::name(qop), if rst { "reset" } else { "closed" }, executed)),
+                    json!({"engine":"pipe-quit-reset","scenario":i,"quiet":quiet,"reset":rst}),
+                );
+            }
+        }
+    }
+    shared.lock().unwrap().merge_counters(&local);
 }
 
 // ---------------------------------------------------------------------------
@@ -495,7 +612,7 @@ pub fn run_c12(ctx: &Ctx) -> i32 {
 
 pub const RULE_C13: &str = "a case is one pipeline [set a] [frame with body around the item limit] [set b, get a, noop] on a server with item limit L, where the amount of the big body that arrives together with its header is controlled (0, 1, <half, half, >half, all-1, all, all+followers) and the split actually achieved is read from the conn.frame hook; bodies > L must be answered 0x03 once with the opaque echoed, change nothing, and leave the followers served; bodies <= L must not be rejected for size; non-trivial when the frame is oversized and has followers; distinct by (L, opcode, body class, position, achieved (buffered, body) pair)";
 
-const BIG_OPS: [u8; 12] = [op::SET, op::GET, op::INCR, op::NOOP, op::APPEND, op::ADD, op::DELETE, op::SETQ, op::GETKQ, op::TOUCH, op::FLUSH, op::VERSION];
+const BIG_OPS: [u8; 14] = [op::SET, op::GET, op::INCR, op::NOOP, op::APPEND, op::QUIT, op::ADD, op::QUITQ, op::DELETE, op::SETQ, op::GETKQ, op::TOUCH, op::FLUSH, op::VERSION];
 
 pub fn run_c13(ctx: &Ctx) -> i32 {
     install_quiet_panic_hook();
@@ -503,7 +620,8 @@ pub fn run_c13(ctx: &Ctx) -> i32 {
     ev0.assumptions = vec!["in-process MemcacheTcpServer on loopback; achieved read splits observed through the conn.* hooks".into()];
     let shared = Mutex::new(ev0);
     let limits: Vec<u32> = if ctx.thorough() { vec![1024, 4096, 65536, 1 << 20, 4 << 20] } else { vec![1024, 65536] };
-    let ops: Vec<u8> = if ctx.thorough() { (0..op::MAX).filter(|o| op::is_known(*o) && *o != op::QUIT && *o != op::QUITQ).collect() } else { BIG_OPS[..6].to_vec() };
+    // "for every opcode": an oversized quit / quitq is refused like any other request and does not end the connection
+    let ops: Vec<u8> = if ctx.thorough() { (0..op::MAX).filter(|o| op::is_known(*o)).collect() } else { BIG_OPS[..8].to_vec() };
     // case list
     let mut cases: Vec<(u32, u8, usize, usize, usize)> = vec![];
     for (li, l) in limits.iter().enumerate() {
@@ -516,6 +634,10 @@ pub fn run_c13(ctx: &Ctx) -> i32 {
                             continue;
                         }
                         if *l >= (1 << 20) && bc == 4 && split % 2 == 1 {
+                            continue;
+                        }
+                        // a quit whose body is within the limit is a quit: it ends the connection by design
+                        if (*o == op::QUIT || *o == op::QUITQ) && bc < 2 {
                             continue;
                         }
                         cases.push((*l, *o, bc, pos, split));
